@@ -50,7 +50,9 @@ pub struct PsoCase {
     /// another (identifier A) velocity update runs right before the swarm's own schedule;
     /// bit 2: the state update is the custom block [global best update, personal bests update] (reversed order);
     /// bit 3: the loop condition is `LessThanN::evaluations(huge) | LessThanN::iterations(n)` (the iteration bound that
-    /// feeds the progress stands second in a disjunction)
+    /// feeds the progress stands second in a disjunction);
+    /// bit 4: a log rule with the trigger `LessThanN::iterations(n / 2)` is registered, which the template's logger
+    /// evaluates at the end of every pass
     #[serde(default)]
     pub extras: u8,
 }
@@ -265,7 +267,7 @@ impl Check for PsoCheck {
         "C18/pso-run".into()
     }
     fn classes(&self) -> &'static [&'static str] {
-        &["a velocity component was clamped", ">= 3 passes", "a personal best improved", "inertia only (c1 = c2 = 0)", "single particle", "v_max small relative to the domain", "initial velocities beyond the update's v_max", "a best-so-far individual that is not a particle exists before the swarm is created", "a second linear schedule with equal bounds runs right before the swarm's"]
+        &["a velocity component was clamped", ">= 3 passes", "a personal best improved", "inertia only (c1 = c2 = 0)", "single particle", "v_max small relative to the domain", "initial velocities beyond the update's v_max", "a best-so-far individual that is not a particle exists before the swarm is created", "a second linear schedule with equal bounds runs right before the swarm's", "a log trigger bounds the same counter by n / 2"]
     }
     fn oracle(&self, c: &PsoCase) -> Outcome {
         let mut cl = 0;
@@ -306,6 +308,9 @@ fn pso_oracle(c: &PsoCase, cl: &mut u64) -> Result<(), Failure> {
     }
     if paired {
         *cl |= 256;
+    }
+    if c.vinit_rel.is_some() && c.extras & 16 != 0 {
+        *cl |= 512;
     }
     let audit = Arc::new(Mutex::new(A18 { vmax, c1: c.c1, c2: c.c2, w0: c.w0, w1: c.w1, paired_linear: paired, iters: c.iters, ..Default::default() }));
     let res = run_observed(&cfg, &problem, c.seed, EvalKind::Sequential, audit.clone());
@@ -353,6 +358,9 @@ fn generic_pso(c: &PsoCase, v_init: f64, v_max: f64) -> mahf::ExecResult<mahf::C
     if c.extras & 2 != 0 {
         b = b.do_(Box::new(OtherWeight(c.w0)));
     }
+    if c.extras & 16 != 0 {
+        b = b.do_(Box::new(LogFirstHalf((c.iters / 2).max(1))));
+    }
     Ok(b
         .do_(initialization::RandomSpread::new(c.n))
         .evaluate()
@@ -372,6 +380,24 @@ fn generic_pso(c: &PsoCase, v_init: f64, v_max: f64) -> mahf::ExecResult<mahf::C
             if c.extras & 8 != 0 { LessThanN::evaluations(c.n * (1 + c.iters / 2)) | LessThanN::iterations(c.iters) } else { LessThanN::iterations(c.iters) },
         ))
         .build())
+}
+
+/// Registers a log rule "record the iteration counter while iterations < m": the template's logger evaluates the trigger
+/// at the end of every pass, i.e. another `LessThanN` over the iteration counter runs between two tests of the loop
+/// condition (and writes the same progress state, m < n).
+#[derive(Clone, Serialize)]
+struct LogFirstHalf(u32);
+impl Component<RealP> for LogFirstHalf {
+    fn init(&self, _p: &RealP, state: &mut State<RealP>) -> mahf::ExecResult<()> {
+        let m = self.0;
+        state.configure_log(|cfg| {
+            cfg.with(mahf::conditions::LessThanN::iterations(m), ValueOf::<Iterations>::entry::<RealP>());
+            Ok(())
+        })
+    }
+    fn execute(&self, _p: &RealP, _state: &mut State<RealP>) -> mahf::ExecResult<()> {
+        Ok(())
+    }
 }
 
 /// Registers the inertia weight of a second (identifier A) velocity update, as a second swarm in the same state would.
@@ -438,7 +464,7 @@ fn pso_strategy(max_iters: u32) -> impl Strategy<Value = PsoCase> {
         prop_oneof![2 => Just(RealKind::Sphere), 2 => Just(RealKind::Rastrigin), 2 => Just(RealKind::Slope), 2 => Just(RealKind::ShiftedOutside), 2 => Just(RealKind::Plateau), 3 => Just(RealKind::Infeasible)],
         prop_oneof![Just((-5.0, 5.0)), Just((0.0, 1.0)), Just((3.0, 7.0)), Just((-100.0, 100.0))],
         1u32..=max_iters,
-        (any::<u64>(), prop_oneof![3 => Just(None), 2 => prop_oneof![Just(0.001), Just(0.1), Just(1.0), Just(10.0), Just(50.0)].prop_map(Some)], 0u8..16),
+        (any::<u64>(), prop_oneof![3 => Just(None), 2 => prop_oneof![Just(0.001), Just(0.1), Just(1.0), Just(10.0), Just(50.0)].prop_map(Some)], 0u8..32),
     )
         .prop_map(|(n, w0, w1, c1, c2, vmax_rel, dim, kind, (lo, hi), iters, (seed, vinit_rel, extras))| PsoCase { n, w0, w1, c1, c2, vmax_rel, dim, kind, lo, hi, iters, seed, vinit_rel, extras })
 }
